@@ -80,5 +80,10 @@ CLAIMED = {
   note="Bounds: histories of <= 2 (quick) / 3 (thorough) operations on one condition, symbolic quotas, faults {transient error on create/update/delete, conflict on update} at every call, crash after any of the first 6 API calls; periodic mode: <= 2 saves, <= 2 Stop attempts. Outside: the periodic flush goroutine racing with Delete, real API-server semantics beyond the modelled outcomes. Observation (not a C19 violation): after a failed Create the retry passes a nil object to Update and the process panics.",
   technique="symbolic execution of go/ssa + SMT, fault/crash points as symbolic choices",
   ref="9/C19"),
+ "C11": dict(
+  text="Bounded symbolic model checking of the real ClusterInfo.Sync (with the real component-base feature gate, upstream limiter, local flow-control stack, matcher and server-name handling executed from source): k object versions applied in order to one instance yield the same effective configuration, observed through the data-plane accessors, as the last version applied to a fresh instance.",
+  note="Bounds: k = 2 (quick) / 3 (thorough) versions; annotations nil / no gate key / empty / 4 gate assignments; flow control none / max-in-flight(1..2) / token bucket; logging; one policy with a symbolic verb; optional server name. Not yet encoded: endpoints and disabled flags (transport construction), TLS key/cert material (H9), stale redelivery through the controller/work queue (H8), deletions. PEM parsing and work-queue timing are outside the technique.",
+  technique="symbolic execution of go/ssa + SMT, history-independence (k versions vs fresh instance)",
+  ref="9/C11"),
 }
 NOT_APPLICABLE = {}
